@@ -104,6 +104,23 @@ CLAIMED["C01"] = dict(
     technique="Lean 4 algebraic identities over commutative star rings + extracted masks + exact kernel correspondence + API oracle",
     ref="DESIGN.md §5 C01")
 
+CLAIMED["C02"] = dict(
+    text="Lean 4 proof, for every expansion order L, refinement Nref, step, number of stored times and dimension: (i) the trace of every "
+         "stored state equals the initial trace for Hamiltonian-only, tensor-form and operator-form propagation whenever the tensor is "
+         "trace free (which C01 proves for every Redfield/Lindblad assembly); (ii) a Hermitian initial state stays Hermitian for a Hermitian "
+         "Hamiltonian, a conjugation-commuting tensor and a real time step; (iii) operator-form and tensor-form propagation store identical "
+         "states; (iv) in any complete normed algebra, m elementary steps of the loop are within m e^{(m-1)x}(e^x - sum_{k<=L} x^k/k!) |y|, "
+         "x = |dt*generator|, of exp(m dt generator) y, and one step of the code's loop IS the order-L Taylor polynomial (the 'truncation "
+         "bound' of the statement, Mathlib NormedSpace.exp). Tied to the code by 1e-9 comparison of every stored state of "
+         "ReducedDensityMatrixPropagator (orders 2/4/6, Nref 1/2/5 incl. sticky reuse of propagators, Lindblad tensor/operator form, "
+         "Lorentzian pure dephasing) and StateVectorPropagator (complex Hermitian H) with the rational model, and by the oracle: trace, "
+         "Hermiticity, positivity, distance to scipy expm of the GKSL generator within the bound, purity/energy, sv-vs-dm, RWA-vs-lab.",
+    note="Lean kernel + standard axioms (Classical.choice via Mathlib analysis); positivity of the exact GKSL semigroup (Lindblad's theorem) "
+         "and unitarity of exp(-iHt) are NOT proved: positivity / norm / purity / energy 'within the bound' are consequences checked "
+         "numerically; the link between the algebra-level bound and the matrix model is by the shared taylorStep definition.",
+    technique="Lean 4 loop-invariant proofs + Mathlib normed-algebra exponential bound + model/implementation correspondence",
+    ref="DESIGN.md §5 C02")
+
 NOT_APPLICABLE = {}
 
 
